@@ -8,6 +8,7 @@ import CfbVerif.Drv.Lock
 def main (args : List String) : IO UInt32 := do
   match args with
   | ["handle"] => CfbVerif.Drv.Handle.main; return 0
+  | ["handlef"] => CfbVerif.Drv.Handle.mainF; return 0
   | ["names"] => CfbVerif.Drv.Names.main; return 0
   | ["time"] => CfbVerif.Drv.Time.main; return 0
   | ["api"] => CfbVerif.Drv.Api.main; return 0
